@@ -40,6 +40,7 @@ TABLE = {
     "c01_merge_reuse_keeps_old_members.diff": ("contracts.c01b", "_attempt_wire_merge", "left own, right simple"),
     "c08_mark_occupied_row_only.diff": ("contracts.c08", "mark_occupied", None),
     "c14_zero_step_via_variable.diff": ("contracts.c14", "visit_ForStmt", "variable"),
+    "c06_enable_integer_bare.diff": ("contracts.c16b", "lower_assign_stmt", "entity.property"),
     "c14_write_keyed_by_scope.diff": ("contracts.c14c", "infer_expr_type", "m.write(v), v: SignalValue"),
     "c14_write_loop_needs_three.diff": ("contracts.c14c", "infer_expr_type", "m.write(v), v: SignalValue"),
     "c14_write_loop_inner_cell_refused.diff": ("contracts.c14c", "infer_expr_type", "m.write(v), v: SignalValue"),
